@@ -130,9 +130,15 @@ func driveResource(t tuple, a api, variant int, decoy string) (o outcome, resW, 
 		wopts = append(wopts, resource.WithUpdatePaths(t.M.paths...))
 	}
 	if !moreW.isNil {
-		if variant%2 == 0 {
+		switch {
+		case len(moreW.paths) >= 2 && variant%3 == 1:
+			// the extra writable paths given in two options of the same call (they accumulate)
+			k := len(moreW.paths) / 2
+			wopts = append(wopts, resource.WithMoreWritablePaths(moreW.paths[:k]...), resource.WithMoreWritableFields(&fieldmaskpb.FieldMask{Paths: append([]string{}, moreW.paths[k:]...)}))
+			o.how += "; extra writable paths in two options"
+		case variant%2 == 0:
 			wopts = append(wopts, resource.WithMoreWritableFields(fm(moreW)))
-		} else {
+		default:
 			wopts = append(wopts, resource.WithMoreWritablePaths(moreW.paths...))
 		}
 	}
